@@ -497,91 +497,104 @@ def _attr_names(e):
     return {x.attr for x in ast.walk(e) if isinstance(x, ast.Attribute)}
 
 
+class SymString(AbstractValue):
+    """The scanned string, known only through the positions it is sliced at."""
+    prov = ('string',)
+
+    def abs_len(self, interp):
+        return Aff.sym('LEN')
+
+    def abs_getitem(self, interp, idx):
+        if isinstance(idx, slice):
+            return Piece(Aff.lift(idx.start) if idx.start is not None else Aff({}, 0),
+                         Aff.lift(idx.stop) if idx.stop is not None else Aff.sym('LEN'))
+        return Piece(Aff.lift(idx), None)
+
+
+class Piece(AbstractValue):
+    def __init__(self, lo, hi):
+        self.lo, self.hi = lo, hi
+
+    def __repr__(self):
+        return 'string[%r:%r]' % (self.lo, self.hi) if self.hi is not None else 'string[%r]' % (self.lo,)
+
+
+def spec_pairing(ko, kc):
+    """CommonMark 0.30 6.2 for one opener run of ko and one closer run of kc characters of the same kind,
+    the opener only left-flanking and the closer only right-flanking: the list of (n, used_open, used_close)
+    in the order the emphasis is produced; n = 2 (strong) iff both runs still have >= 2 characters."""
+    out = []
+    uo = uc = 0
+    while ko - uo > 0 and kc - uc > 0:
+        n = 2 if ko - uo >= 2 and kc - uc >= 2 else 1
+        out.append((n, uo, uc))
+        uo += n
+        uc += n
+    return out
+
+
 def rule_strong_n(ctx, rep):
+    """Decided by running process_emphasis itself (abstract interpretation; helpers are followed) on a
+    delimiter stack holding one opener run and one closer run with symbolic positions, for every pair of
+    run lengths 1..4 and both delimiter characters, and comparing every match it records - span, content
+    span, content text, kind - with the specification's pairing."""
     model = ctx.model
-    rep.rule('R-STRONG-N', 'n = 2 iff both runs >= 2; match span = [opener.end - n, closer.start + n), content span inside by n')
+    rep.rule('R-STRONG-N', 'strong iff both runs still have >= 2 characters; match span = content span widened by n on both sides; '
+             'content = [opener.end, closer.start) after earlier matches; kind follows n')
     pe = model.func('core_tokens.process_emphasis')
     unit = model.unit_of(pe)
-    defs = single_defs(pe.node)
-    defs.pop('n', None)   # n stays symbolic
+    dcls = model.cls('core_tokens.Delimiter')
     rep.instance('R-STRONG-N')
-    found = False
-    for n in walk_function(pe.node):
-        if isinstance(n, ast.Call) and isinstance(n.func, ast.Name) and n.func.id == 'MatchObj' and len(n.args) >= 3:
-            found = True
-            a0 = affine_of(n.args[0], defs)
-            a1 = affine_of(n.args[1], defs)
-            fld = n.args[2]
-            if not (isinstance(fld, ast.Tuple) and len(fld.elts) == 3):
-                raise AnalysisError('process_emphasis: MatchObj field is not a 3-tuple literal')
-            f0 = affine_of(fld.elts[0], defs)
-            f1 = affine_of(fld.elts[1], defs)
-            nsym = Aff.sym('n')
-            ok_span = (a0.add(nsym) == f0) and (a1.add(nsym, -1) == f1)
-            rep.obligation('R-STRONG-N', ok_span, {'match_start': repr(a0), 'match_end': repr(a1),
-                                                  'content_start': repr(f0), 'content_end': repr(f1)})
-            if not ok_span:
-                rep.find('R-STRONG-N', 'core_tokens.process_emphasis', 'match-span',
-                         'match span [%r, %r) and content span [%r, %r) do not differ by exactly n on each side'
-                         % (a0, a1, f0, f1), loc(unit, n))
-            # the content text must be the same slice
-            sl = fld.elts[2]
-            ok_txt = (isinstance(sl, ast.Subscript) and isinstance(sl.slice, ast.Slice)
-                      and sl.slice.lower is not None and sl.slice.upper is not None
-                      and affine_of(sl.slice.lower, defs) == f0 and affine_of(sl.slice.upper, defs) == f1)
-            rep.obligation('R-STRONG-N', ok_txt, {'content_text': ast.unparse(sl)})
-            if not ok_txt:
-                rep.find('R-STRONG-N', 'core_tokens.process_emphasis', 'content-text',
-                         'content text %s is not string[content_start:content_end]' % ast.unparse(sl), loc(unit, n))
-            # spans are anchored at the inner ends of the two runs
-            ok_anchor = (f0.terms and f1.terms and any('end' in k for k in f0.terms) and any('start' in k for k in f1.terms)
-                         and f0.const == 0 and f1.const == 0 and len(f0.terms) == 1 and len(f1.terms) == 1)
-            rep.obligation('R-STRONG-N', bool(ok_anchor), {'content_span': '[%r, %r)' % (f0, f1)})
-            if not ok_anchor:
-                rep.find('R-STRONG-N', 'core_tokens.process_emphasis', 'content-anchor',
-                         'content span [%r, %r) is not [opener.end, closer.start)' % (f0, f1), loc(unit, n))
-    if not found:
-        raise AnalysisError('process_emphasis: MatchObj construction not found')
-    # n definition and type selection
-    ndef = None
-    for a in walk_function(pe.node):
-        if isinstance(a, ast.Assign) and any(isinstance(t, ast.Name) and t.id == 'n' for t in a.targets):
-            ndef = a.value
-    ok_n = False
-    if isinstance(ndef, ast.IfExp) and isinstance(ndef.body, ast.Constant) and isinstance(ndef.orelse, ast.Constant):
-        t = ndef.test
-        conj = t.values if isinstance(t, ast.BoolOp) and isinstance(t.op, ast.And) else []
-        nums = set()
-        for c in conj:
-            if (isinstance(c, ast.Compare) and len(c.ops) == 1 and isinstance(c.comparators[0], ast.Constant)):
-                op, k = c.ops[0], c.comparators[0].value
-                if (isinstance(op, ast.GtE) and k == 2) or (isinstance(op, ast.Gt) and k == 1):
-                    nums.add(ast.unparse(c.left))
-        ok_n = ndef.body.value == 2 and ndef.orelse.value == 1 and len(nums) == 2 and len(conj) == 2
-    rep.obligation('R-STRONG-N', ok_n, {'n': ast.unparse(ndef) if ndef is not None else None})
-    if not ok_n:
-        rep.find('R-STRONG-N', 'core_tokens.process_emphasis', 'n-definition',
-                 'n is not "2 if both run lengths >= 2 else 1": %s' % (ast.unparse(ndef) if ndef is not None else None),
-                 loc(unit, pe.node))
-    # type: 'Strong' iff n == 2
-    ok_t = False
-    for a in walk_function(pe.node):
-        if isinstance(a, ast.Assign) and any(isinstance(t, ast.Attribute) and t.attr == 'type' for t in a.targets):
-            v = a.value
-            if (isinstance(v, ast.IfExp) and isinstance(v.test, ast.Compare) and len(v.test.ops) == 1):
-                l, op, r = v.test.left, v.test.ops[0], v.test.comparators[0]
-                if isinstance(l, ast.Name) and l.id == 'n' and isinstance(r, ast.Constant):
-                    b, o = getattr(v.body, 'value', None), getattr(v.orelse, 'value', None)
-                    if isinstance(op, ast.Eq) and r.value == 2:
-                        ok_t = (b, o) == ('Strong', 'Emphasis')
-                    elif isinstance(op, ast.Eq) and r.value == 1:
-                        ok_t = (b, o) == ('Emphasis', 'Strong')
-                    elif isinstance(op, ast.NotEq) and r.value == 2:
-                        ok_t = (b, o) == ('Emphasis', 'Strong')
-    rep.obligation('R-STRONG-N', ok_t, {'type_selection': 'Strong iff n == 2'})
-    if not ok_t:
-        rep.find('R-STRONG-N', 'core_tokens.process_emphasis', 'type-selection',
-                 "match.type is not 'Strong' exactly when n == 2", loc(unit, pe.node))
+    n_cases = 0
+    OE, CS = Aff.sym('opener_end'), Aff.sym('closer_start')
+    for ch, ko, kc in itertools.product('*_', (1, 2, 3, 4), (1, 2, 3, 4)):
+        it = Interp(model, loop_bound=8, while_bound=12)
+        it.reset_run(Oracle())
+        opener = Obj(dcls, {'type': ch * ko, 'number': ko, 'active': True, 'start': OE.add(Aff({}, -ko)), 'end': OE,
+                            'open': True, 'close': False})
+        closer = Obj(dcls, {'type': ch * kc, 'number': kc, 'active': True, 'start': CS, 'end': CS.add(Aff({}, kc)),
+                            'open': False, 'close': True})
+        matches = []
+        problems = []
+        try:
+            it.call_function(pe, [SymString(), None, [opener, closer], matches], {})
+        except Raised as r:
+            problems.append('raises %s' % r.exc.kind)
+        except InterpError as e:
+            raise AnalysisError('process_emphasis could not be interpreted on the two-run scenario: %s' % e)
+        want = spec_pairing(ko, kc)
+        n_cases += 1
+        if not problems and len(matches) != len(want):
+            problems.append('records %d match(es) where the specification pairs %d time(s)' % (len(matches), len(want)))
+        for m, (n, uo, uc) in zip(matches, want):
+            def call(name, *a):
+                return it.call(it.getattr(m, name), list(a), {})
+            try:
+                got = {'start': Aff.lift(call('start')), 'end': Aff.lift(call('end')),
+                       'cstart': Aff.lift(call('start', 1)), 'cend': Aff.lift(call('end', 1)), 'text': call('group', 1),
+                       'type': it.getattr(m, 'type')}
+            except Raised as r:
+                problems.append('match object raises %s' % r.exc.kind)
+                continue
+            cs, ce = OE.add(Aff({}, -uo)), CS.add(Aff({}, uc))
+            exp = {'start': cs.add(Aff({}, -n)), 'end': ce.add(Aff({}, n)), 'cstart': cs, 'cend': ce,
+                   'type': 'Strong' if n == 2 else 'Emphasis'}
+            for k in ('start', 'end', 'cstart', 'cend', 'type'):
+                if got[k] != exp[k]:
+                    problems.append('%s of the %s match is %r, the specification gives %r'
+                                    % ({'start': 'start', 'end': 'end', 'cstart': 'content start', 'cend': 'content end',
+                                        'type': 'kind'}[k], 'first' if (uo, uc) == (0, 0) else 'next', got[k], exp[k]))
+            t = got['text']
+            if not (isinstance(t, Piece) and t.lo == cs and t.hi == ce):
+                problems.append('content text of the match is %r, not string[content start:content end]' % (t,))
+        ok = not problems
+        rep.obligation('R-STRONG-N', ok, {'delimiter': ch, 'opener_run': ko, 'closer_run': kc,
+                                          'spec': [('strong' if n == 2 else 'em') for n, _, _ in want], 'problems': problems[:3]})
+        for p_ in problems[:2]:
+            rep.find('R-STRONG-N', 'core_tokens.process_emphasis', p_.split(' is ')[0][:50],
+                     'opener run %r, closer run %r: process_emphasis %s' % (ch * ko, ch * kc, p_), loc(unit, pe.node),
+                     witness='%sa%s' % (ch * ko, ch * kc))
+    rep.floor('R-STRONG-N', n_cases, 32)
 
 
 def run(ctx):
